@@ -67,6 +67,8 @@ def place(rng, servers, rp, weight):
 
 def c15_snapshot(rng, kind, big=False):
     """A random snapshot with normal volumes. kind: 'balance' | 'evacuate' | 'fix'."""
+    if kind == "balance" and rng.random() < 0.15:
+        return c15_pair_snapshot(rng)
     servers = topology(rng, max_servers=14 if big else 9, unique_racks=rng.random() < 0.8)
     has_ssd = {s[0]: rng.random() < 0.35 for s in servers}
     hot = {s[0]: rng.choice([1, 1, 1, 4, 10]) for s in servers}
@@ -118,6 +120,33 @@ def c15_snapshot(rng, kind, big=False):
     return {"servers": srv, "reps": reps, "shards": []}
 
 
+def c15_pair_snapshot(rng):
+    """Balance snapshots with long plans that move BOTH replicas of a volume: k volumes of 010 (or 100)
+    replicated on two loaded servers in different racks (data centers), empty servers with room in a
+    third rack (data center) - the second replica is a move candidate towards the place the first
+    one went to."""
+    by_dc = rng.random() < 0.4
+    rp = (1, 0, 0) if by_dc else (0, 1, 0)
+    ne = rng.randint(2, 3)
+    if by_dc:
+        servers = [("n1", "d1", "d1r1"), ("n2", "d2", "d2r1")] + [("e%d" % i, "d3", "d3r1") for i in range(1, ne + 1)]
+    else:
+        servers = [("n1", "d1", "r1"), ("n2", "d1", "r2")] + [("e%d" % i, "d1", "r3") for i in range(1, ne + 1)]
+    if rng.random() < 0.3:
+        servers.append(("x1", "d1", "r1"))
+    rng.shuffle(servers)
+    k = rng.randint(3, 9)
+    reps = []
+    for vid in range(1, k + 1):
+        ro = rng.random() < 0.2
+        for sname in ("n1", "n2"):
+            reps.append({"vid": vid, "srv": sname, "dt": "hdd", "rp": list(rp), "col": rng.choice(["c1", "c1", ""]) if sname == "n1" else reps[-1]["col"],
+                         "ro": ro, "size": vid, "mod": 1, "rev": 0})
+    srv = [{"id": s[0], "dc": s[1], "rack": s[2], "hdd": (k + rng.choice([0, 1, 2])) if s[0] in ("n1", "n2") else rng.choice([k, 10, 12]),
+            "ssd": -1} for s in servers]
+    return {"servers": srv, "reps": reps, "shards": []}
+
+
 def c15_opt(rng, kind, snap):
     if kind == "balance":
         dcs = sorted({s["dc"] for s in snap["servers"]})
@@ -146,8 +175,43 @@ def hist_to_snapshot(hist):
     return order, servers, reps, [{"vid": v, "srv": s, "bits": sorted(b), "col": "c1"} for (v, s), b in sorted(ecs.items())]
 
 
+def c16_givetake_snapshot(rng):
+    """Two racks. A nearly full server of rack A holds a whole volume (its rack is over the even-spread
+    target, so it gives shards away across racks) while rack B holds whole volumes that have to send
+    shards to rack A: the giver is later a receiver, and its free slots matter."""
+    nb = rng.randint(1, 3)
+    servers = [("a1", "d1", "rA"), ("a2", "d1", "rA")] + [("b%d" % i, "d1", "rB") for i in range(1, nb + 1)]
+    if rng.random() < 0.3:
+        servers.append(("a3", "d1", "rA"))
+    shards = {}
+    full = list(range(14))
+    shards[(101, "a1")] = set(full if rng.random() < 0.7 else rng.sample(full, rng.randint(9, 13)))
+    fill = rng.choice([0, 3, 6, 6, 9])
+    if fill:
+        shards[(102, "a1")] = set(rng.sample(full, fill))
+    shards[(103, "a2")] = set(rng.sample(full, rng.choice([5, 9, 10])))
+    v = 110
+    for i in range(1, nb + 1):
+        for _ in range(rng.randint(1, 2)):
+            shards[(v, "b%d" % i)] = set(full)
+            v += 1
+    n = {s[0]: 0 for s in servers}
+    for (vv, sname), b in shards.items():
+        n[sname] += len(b)
+    srv = []
+    for s in servers:
+        slack = rng.choice([0, 0, 1]) if s[2] == "rA" else rng.choice([1, 2, 3])
+        srv.append({"id": s[0], "dc": s[1], "rack": s[2], "hdd": (n[s[0]] + 9) // 10 + slack, "ssd": -1})
+    rng.shuffle(srv)
+    col = rng.choice(["c1", ""])
+    return {"servers": srv, "reps": [],
+            "shards": [{"vid": vv, "srv": sname, "bits": sorted(b), "col": col} for (vv, sname), b in sorted(shards.items())]}
+
+
 def c16_snapshot(rng, big=False):
     """A random snapshot with erasure-coded volumes (14 shards) and a few normal volumes."""
+    if rng.random() < 0.2:
+        return c16_givetake_snapshot(rng)
     servers = topology(rng, max_servers=14 if big else 10, unique_racks=True, dcs=(1, 2), racks=(1, 3), per_rack=(1, 4))
     ids = [s[0] for s in servers]
     byrack = {}
